@@ -170,6 +170,7 @@ func oracleC07(cl *Classifier, x []byte, alone Results, contexts []c07Context) (
 }
 
 func smallScope(c *vrep.Ctx, prop string) {
+	vSmallSettings(c.Param("vocab", "ascii"), c.ParamInt("dictoffset", 0))
 	maxLen := c.ParamInt("maxlen", c.Pick(7, 9))
 	ts := []float64{0.5, 0.7, 0.8}
 	if prop == "c03" {
@@ -180,6 +181,9 @@ func smallScope(c *vrep.Ctx, prop string) {
 		ts = []float64{0.8}
 	}
 	ncorp := len(vSmallCorpusShapes)
+	if n := c.ParamInt("corpora", 0); n > 0 && n < ncorp {
+		ncorp = n // the first n corpus shapes only
+	}
 	cls := make([][]*Classifier, ncorp)
 	for i := range cls {
 		for _, t := range ts {
@@ -192,6 +196,8 @@ func smallScope(c *vrep.Ctx, prop string) {
 	}
 	c.R.Rule = fmt.Sprintf("small scope: ALL word strings of length <=%d over {aa,bb,cc,OOV} x %d corpora of 1-3 documents over {aa,bb,cc} (repetitive, periodic, nested, identical twins) x thresholds %v x %d line layouts; oracle %s; non-trivial = distinct (corpus, threshold, layout, input) cases in which Match returned at least one match", maxLen, ncorp, ts, nlay, prop)
 	c.Bound("max_input_words", maxLen)
+	c.Bound("vocabulary", fmt.Sprintf("%q (param vocab=%s)", vSmallVocab, c.Param("vocab", "ascii")))
+	c.Bound("filler_words_before_the_vocabulary", vSmallFiller)
 	c.Bound("corpora", ncorp)
 	c.Bound("thresholds", fmt.Sprint(ts))
 	body := func(r *vx.Run) {
